@@ -10,6 +10,7 @@ import z3
 from sx import inv as I
 from sx.arr import SArr
 from sx.graph import SymDiGraph
+from sx.rt import reraise_model_gap  # noqa: F401
 from sx.rt import And, Implies, Not, Or, SInt, Unsupported, int_shim, zb
 
 import funtracks.utils._segmentation_utils as su
@@ -49,6 +50,7 @@ def unique_harness(ctx, cfg):
     except Unsupported:
         raise
     except Exception as e:
+        reraise_model_gap(e)
         ctx.tag(f"raised:{type(e).__name__}")
         ctx.oblige("C19.returns_without_error", False, "C19")
         return
@@ -87,6 +89,7 @@ def unique_replay(f):
     try:
         out = su_real().ensure_unique_labels(arr, multiseg=inp["multiseg"])
     except Exception as e:
+        reraise_model_gap(e)
         return f["obligation"] == "C19.returns_without_error", f"in={before.tolist()} raised {type(e).__name__}: {e}"
     nfr = 2 if inp["multiseg"] else 1
     ob = f["obligation"]
@@ -150,6 +153,7 @@ def bytrack_harness(ctx, cfg):
     except Unsupported:
         raise
     except Exception as e:
+        reraise_model_gap(e)
         ctx.tag(f"raised:{type(e).__name__}")
         ctx.oblige("C19.returns_without_error", False, "C19")
         return
@@ -194,6 +198,7 @@ def bytrack_replay(f):
     try:
         out = su_real().relabel_segmentation_with_track_id(g, arr)
     except Exception as e:
+        reraise_model_gap(e)
         return f["obligation"] == "C19.returns_without_error", f"in={before.tolist()} raised {type(e).__name__}: {e}"
     detail = f"nodes={dict(g.nodes(data=True))} edges={list(g.edges())} in={before.tolist()} out={out.tolist()}"
     ob = f["obligation"]
